@@ -96,6 +96,44 @@ def bnd_segmentation(tier, seed):
             parts.append(n)
             left -= n
         check(msgs, parts, r % 2 == 0 and len(parts) < 400, f"random-{r}")
+    # a long run of small frames whose segment boundaries never coincide with a frame boundary for more than 4 KiB (a receive
+    # buffer that only compacts when it runs empty or after some KiB must still deliver all of them), in several rhythms
+    many = [(0x3000 + k, 1, 1, True, b"") if k % 3 else (0x3000 + k, 10, 3, False, R.encode(("L", [("B", b"\x01"), ("A", "z" * (k % 97))]))) for k in range(600)]
+    total_many = sum(len(H.frame(0, s_, st, fn, w, body)) for s_, st, fn, w, body in many)
+    for size in (1000, 37, 4097):
+        parts = [size] * (total_many // size) + ([total_many % size] if total_many % size else [])
+        check(many, parts, True, f"many-small-frames-{size}")
+    # history: a frame is cut when the connection drops; the next connection starts a fresh stream (what was buffered, and
+    # anything remembered about the cut frame, belongs to the old connection)
+    n_eval += 1
+    distinct.add(("cut-frame-then-reconnect", 2, True))
+    proto, conn, log = H.make_hsms()
+    try:
+        proto.enable()
+        conn.connect()
+        conn.feed(H.frame(stype=1, system=0x01020304))
+        H.wait_until(lambda: str(proto.connection_state.current).endswith("CONNECTED_SELECTED"), 2.0)
+        a, b, c, d = small[0], small[4 % len(small)] if len(small) > 4 else msgs[4], small[1], small[2]
+        fb = H.frame(0, *b[:4], b[4])
+        conn.feed(H.frame(0, *a[:4], a[4]) + fb[:9])         # frame A, then length field + 5 header bytes of frame B
+        H.wait_until(lambda: len(log["message_received"]) >= 1, 2.0)
+        conn.close()
+        H.wait_until(lambda: str(proto.connection_state.current).endswith("NOT_CONNECTED"), 2.0)
+        conn.connect()
+        conn.feed(H.frame(stype=1, system=0x01020305))
+        H.wait_until(lambda: str(proto.connection_state.current).endswith("CONNECTED_SELECTED"), 2.0)
+        conn.feed(H.frame(0, *c[:4], c[4]) + H.frame(0, *d[:4], d[4]))
+        H.wait_until(lambda: len(log["message_received"]) >= 3, 2.0)
+        H.quiesce(proto, 1.0)
+        got = list(log["message_received"])
+        want = [tuple(a), tuple(c), tuple(d)]
+        if got != want or not str(proto.connection_state.current).endswith("CONNECTED_SELECTED"):
+            fails.add("same-messages-any-segmentation", {"history": "frame A, 9 bytes of frame B, connection lost, new connection, Select, frames C and D",
+                                                         "state": str(proto.connection_state.current), "delivered": [(g[0], g[1], g[2], len(g[4])) for g in got],
+                                                         "expected": [(g[0], g[1], g[2], len(g[4])) for g in want]},
+                      "after a connection that ended inside a frame the frames of the next connection are not delivered as sent")
+    finally:
+        H.shutdown(proto, conn)
     # frames written by the library are bit-exact: encode every SType via the public send_* API and parse independently
     proto, conn, log = H.make_hsms()
     try:
